@@ -7,7 +7,8 @@
    [c06_monotone] : over all pairs of positions the (signed) transmitted value is monotone in the raw position (reversed by flip).
    [axis_msgs g raw] is what the model (bit-exact float64, Model/AnalogF.v) transmits. *)
 From Coq Require Import List NArith ZArith Bool.
-From HIDI Require Import Base.AList Model.Device Model.AnalogF Model.AnalogSpec Proofs.AnalogGrid Proofs.AnalogProofs.
+From Coq Require Import Reals.
+From HIDI Require Import Base.AList Model.Device Model.AnalogF Model.AnalogSpec Proofs.AnalogGrid Proofs.AnalogProofs Proofs.AnalogEndstop.
 Import ListNotations.
 
 (* Every raw value of the 8-bit axes [0,255], [-128,127], [-127,127] and of a hat [-1,1], for each of the 20 deadzones of
@@ -37,3 +38,35 @@ Theorem C06_reciprocal_endstop_refuted :
   cc_byte (fst (shape_gen true 0 255 false dz 255)) = 126%N /\ cc_byte (fst (shape 0 255 false dz 255)) = 127%N.
 Proof. exact reciprocal_endstop_refuted. Qed.
 Print Assumptions C06_reciprocal_endstop_refuted.
+
+(* ---- General part (no grid, no bound): exactness of the end stop and of the rest value.
+   For EVERY axis range with 0 < max < 2^31 (any minimum), EVERY finite deadzone 0 <= dz < 1 (as a real number), with or
+   without deadzone_at_center: the shaped position at the physical end stop raw = max is exactly 1.0 - by x / x = 1 in
+   IEEE arithmetic and monotone correct rounding (Flocq), not by evaluation. *)
+Theorem C06_endstop_exact : forall mn mx dzc dz,
+  (0 < mx < 2 ^ 31)%Z -> B.is_finite dz = true -> (0 <= B.B2R dz < 1)%R ->
+  fst (shape mn mx dzc dz mx) = f1.
+Proof. exact endstop_max. Qed.
+Print Assumptions C06_endstop_exact.
+
+(* ... and 1.0 is transmitted as 127 (unidirectional unsigned / signed, either side of a pair) resp. 16383 *)
+Theorem C06_one_is_full_scale :
+  cc_byte f1 = 127%N /\ cc_byte (fabs f1) = 127%N /\ cc_byte (fdiv (fadd f1 f1) f2) = 127%N /\
+  pb_bytes true f1 = (127%N, 127%N).
+Proof. exact transmit_one. Qed.
+Print Assumptions C06_one_is_full_scale.
+
+(* For EVERY range, raw value and deadzone (any float whatsoever): a position whose normalised value compares inside the
+   deadzone is shaped to exactly +0.0 ... *)
+Theorem C06_deadzone_rest : forall mn mx dzc dz raw,
+  let v := normalised mn mx dzc raw in
+  (flt v f0 = false /\ flt v dz = true) \/ (flt v f0 = true /\ fgt v (fneg dz) = true) ->
+  fst (shape mn mx dzc dz raw) = f0.
+Proof. exact deadzone_rest. Qed.
+Print Assumptions C06_deadzone_rest.
+
+(* ... and +0.0 is transmitted as the rest value: 0, 63 (mid-scale) or the pitch-bend centre 8192 *)
+Theorem C06_zero_is_rest :
+  cc_byte f0 = 0%N /\ cc_byte (fabs f0) = 0%N /\ cc_byte (fdiv (fadd f0 f1) f2) = 63%N /\ pb_bytes true f0 = (0%N, 64%N).
+Proof. exact transmit_zero. Qed.
+Print Assumptions C06_zero_is_rest.
